@@ -170,6 +170,10 @@ def work(task):
 def run(tier="quick", seed=0):
     cases = [c for c in corpus.all_cases(tier, seed) if c["kind"] == "molecule"]
     texts = [c["text"] for c in cases]
+    # descriptors that read alike but bond with different order (the graph must keep their partner sets apart); such molecules cannot be generated
+    # (a dangling '=' is not a valid fragment), so they are listed here and not in the general corpus
+    texts += ["{[][$]CC[$], [$|2|]CC(C)=[$], [$]=C(C)C[$|3|]; [$]=O, [$][H][]}|gauss(300, 20)|",
+              "C{[>][<]CC[>], [<|2|]=CC=[>|5|]; [<][H], [>]=O[<]}|uniform(40, 90)|F"]
     tasks = [{"texts": texts[i:i + 4], "tier": tier} for i in range(0, len(texts), 4)]
     res = harness.run_tasks("monitor.drive_C16", "work", tasks, timeout=600 if tier == "quick" else 2400)
     out = harness.merge(res, rule="every molecule of the corpus: graph nodes and per-node sums; every partner pick of enumerated generations (scripted generator, "
